@@ -1313,7 +1313,9 @@ impl Checker {
             }
         };
 
-        let resolved_path = working_dir.join(path);
+        // Normalize so that every spelling of a file is one cache key and one
+        // entry of the cycle check (d/./b.ucg, d/../d/b.ucg, ...).
+        let resolved_path = crate::path::normalize(working_dir.join(path));
 
         // Check the cache first
         if let Some(cached) = self.shape_cache.borrow().get(&resolved_path) {
